@@ -265,7 +265,9 @@ def _block_case(cseed, block, cid):
     try:
         if block == "Normalizer":
             is_rgb = rng.choice([True, False])
-            src = (img * 255).to(torch.uint8) if rng.random() < 0.5 else img
+            u = rng.random()
+            # raw frames as uint8, as another integer type (int16 / int32 readers), or already float
+            src = (img * 255).to(torch.uint8) if u < 0.4 else ((img * 255).to(torch.int32 if u < 0.5 else torch.int16) if u < 0.6 else img)
             params.update(is_rgb=int(is_rgb))
             keys = ["image"]
             try:
